@@ -569,8 +569,13 @@ def ema_grouped(
         if alpha is not None:
             raise ValueError("only one of alpha or halflife should be provided")
 
-        halflife = _halflife_to_int(halflife)
-        alpha = 1 - np.exp(-np.log(2) / halflife)
+        if times is not None:
+            halflife = _halflife_to_int(halflife)
+        else:
+            # a plain (possibly fractional) number of observations, exactly as in `ema`
+            if halflife <= 0:
+                raise ValueError("Halflife must be positive.")
+            alpha = 1 - np.exp(-np.log(2) / halflife)
 
     nb_kwargs = dict(
         group_key=group_key_arr,
